@@ -219,37 +219,45 @@ class C03(Check):
     ID = 'C03'
     LEVEL = 'exploration'
     ENGINE = 'ENUM'
-    RULE = ('cases = (experiment, fault set), exhaustively, simplest first: every ordered list of distinct (environment, learner, '
-            'evaluator) triples of length <=3 (thorough <=4) over 2 environments x 2 history-revealing learners x 2 evaluators as an '
-            'explicit tuple list; every cross-product constructor call over ordered non-empty selections (lists or single objects) of '
-            'the same components; (environment, learner) 2-tuple lists; each x {no fault} + every distinct single fault designated on '
-            'one of its triples (raise at env.params, item k of env.read, learner.params, k-th predict, k-th learn, evaluator.params, '
-            'evaluator.evaluate; k in 0..1, thorough 0..2); thorough adds every unordered pair of distinct faults for lists of length <=3. '
+    RULE = ('cases = (experiment, environment wrapping, fault set), exhaustively, simplest first: every ordered list of distinct (environment, '
+            'learner, evaluator) triples of length <=3 (thorough <=4) over 2 environments x 2 history-revealing learners x 2 evaluators as an '
+            'explicit tuple list (lists <=2 also with quiet=True); every cross-product constructor call over ordered non-empty selections (lists or '
+            'single objects) of the same components; (environment, learner) 2-tuple lists; each with bare environments and with both environments '
+            'piped into one Chunk object so that all their tasks are processed in one chunk (thorough also: one Chunk per environment, and the shared '
+            'chunk split by maxtasksperchunk=2); each x {no fault} + every distinct single fault designated on one of its triples (raise at '
+            'env.params, item k of env.read, learner.params, k-th predict, k-th learn, evaluator.params, evaluator.evaluate; k in 0..1, thorough '
+            '0..2); thorough adds every unordered pair of distinct faults for lists of length <=3 (bare and shared chunk). '
             'A case is non-trivial when it has >=2 triples and (a learner object is listed in several triples or a fault position is '
             'reached inside an evaluation)')
     ASSUMPTIONS = [
-        'in-process configuration only (processes=1, maxchunksperchild=0, maxtasksperchunk=0); no result file',
-        'reference = the real single-triple experiment run alone on fresh components (a differential oracle, as the statement words it); '
-        'which triples must fail is decided by a plain model of the components (fault position < number of reads / predict / learn calls)',
+        'in-process configuration only (processes=1, maxchunksperchild=0, maxtasksperchunk in {0,2}); no result file',
+        'reference = the real single-triple experiment run alone on fresh components with the same kind of environment object (a differential '
+        'oracle, as the statement words it); which triples must fail is decided by a plain model of the components (fault position < number of '
+        'reads / predict / learn calls the evaluator makes)',
         'rows are attributed to triples by their content (the environment tags its interactions, the learner writes its tag to learning_info, '
         'the scripted evaluator tags its rows); environment_id / learner_id / evaluator_id are ignored; the order of rows of different triples is ignored',
         'absent cells (None / Missing) are ignored when rows are compared (a multi-triple table has the union of the columns)',
         'a triple one of whose components raises in *params* (not inside an evaluation) may have its rows or not; if it has rows they must be the alone-run rows; '
         'the log is not required to mention params exceptions (SafeEvaluator.params swallows them by design)',
         'an exception at the first item of env.read is swallowed by the environment-parameter task (documented peek); only the evaluation tasks must report it',
-        'with two faults on one triple only one log entry is demanded for it (the first exception pre-empts the second)',
+        'one log entry carrying the exception text is demanded per failing evaluation; with two faults on one triple either text is accepted (the first exception pre-empts the second)',
         'a learner listed in exactly ONE triple may be trained in place (the statement only speaks of learners listed several times)',
-        'lists with the same triple twice, learners with custom __eq__/__hash__, stateful evaluators / environments are outside the alphabet',
+        'the learners publish what they were taught through CobaContext.learning_info (coba\'s documented channel for per-interaction learner output); '
+        'the scripted evaluator neither reads nor clears it',
+        'lists with the same triple twice, learners with custom __eq__/__hash__, stateful evaluators / environments, cached environments (Chunk with cache=True) are outside the alphabet',
+        'a violating case is attributed to its simplest still-violating variant (faults dropped, wrapping / form / quiet simplified, undesignated triples dropped) '
+        'and keyed by what that variant still needs',
     ]
-    TECHNIQUE = ('bounded-exhaustive enumeration of triple lists / constructor forms x fault positions on the real Experiment.run, '
-                 'compared per triple with the real single-triple run on pristine components')
+    TECHNIQUE = ('bounded-exhaustive enumeration of triple lists / constructor forms x environment wrappings x fault positions on the real '
+                 'Experiment.run, compared per triple with the real single-triple run on pristine components')
     LEVEL_TEXT = ('Every ordered list of <=3 (thorough <=4) distinct triples over 2 environments x 2 history-revealing learners x 2 evaluators '
                   '(every sharing pattern of learner / environment / evaluator objects and every order), every cross-product constructor form and '
-                  '2-tuple lists, each without fault and with every single fault position on every designated triple (thorough: every fault pair '
-                  'for lists <=3), is run through the real Experiment.run in-process and compared triple by triple with the triple run alone.')
+                  '2-tuple lists, with bare and chunked environments (single-task and multi-task chunks of ProcessTasks), each without fault and with '
+                  'every single fault position on every designated triple (thorough: every fault pair for lists <=3), is run through the real '
+                  'Experiment.run in-process and compared triple by triple with the triple run alone.')
     LEVEL_NOTE = ('small-scope: <=4 triples (8 in cross-product form), environments of 2-3 interactions, faults at call positions 0..2, at most two faults; '
                   'in-process configuration only (multi-process configurations are added through the SCHED engine by the orchestrator)')
-    MIN_NONTRIVIAL = {'quick': 5000, 'thorough': 50000}
+    MIN_NONTRIVIAL = {'quick': 20000, 'thorough': 400000}
     CASE_TIMEOUT = 60
 
     # ---------------------------------------------------------------- enumeration
@@ -367,13 +375,16 @@ class C03(Check):
             for v in self.simpler(case):
                 if self.examine(v, acc, depth + 1)[0]: return True, sig
         needs = []
-        if faults: needs.append('with a fault at ' + '+'.join(sorted({f['at'] for f in faults})))
-        if case.get('chunk'): needs.append({'per-env': 'environments piped into a Chunk', 'shared': 'environments piped into one shared Chunk'}[case['chunk']])
+        if faults:
+            failing = any(reachable(f, t) for f in faults for t in trip)
+            needs.append('an evaluation fails' if failing else 'a params property raises' if any(f['at'] in PARAM_FAULTS for f in faults)
+                         else 'an unreached fault is armed')
+        if case.get('chunk'): needs.append('environments piped into a Chunk')
         if case.get('mt'): needs.append('maxtasksperchunk>0')
         if case.get('quiet'): needs.append('quiet=True')
         if case['form'] != 'triples': needs.append(f"{case['form']} constructor form")
         for mode, feat, what in found:
-            parts = ([feat] if feat else []) + [n for n in needs if not (feat.startswith('fault at') and n.startswith('with a fault'))]
+            parts = ([feat] if feat else []) + [n for n in needs if not (feat.startswith('fault at') and n == 'an evaluation fails')]
             acc.violation(f"Experiment.run|{mode}|{'; '.join(parts) or 'any experiment'}", what, witness=case)
         return True, sig
 
